@@ -36,7 +36,7 @@ use quandary::rr::rdata::TimeSigned;
 use quandary::rr::{Rdata, Ttl, Type};
 use quandary::server::{ReceivedInfo, Response, Server, Transport, TsigKeyMap};
 
-type Cat = HashMapTreeCatalog<HashMapTreeZone, ()>;
+pub(crate) type Cat = HashMapTreeCatalog<HashMapTreeZone, ()>;
 
 const TTL_BASE: u32 = 1000;
 
@@ -48,7 +48,7 @@ fn rd(b: &[u8]) -> &Rdata {
     <&Rdata>::try_from(b).unwrap()
 }
 
-fn make_catalog(g: usize) -> Cat {
+pub(crate) fn make_catalog(g: usize) -> Cat {
     let ttl = Ttl::from(TTL_BASE + g as u32);
     let gh = (g >> 8) as u8;
     let gl = g as u8;
